@@ -5,6 +5,7 @@ import (
 	"go/token"
 	"go/types"
 	"regexp"
+	"sort"
 	"strings"
 
 	"golang.org/x/tools/go/ssa"
@@ -489,6 +490,7 @@ func c10(c *ctx) {
 	c10cursor(c)
 	r.Rule("R6", "ALIAS", "a read-only view shares no mutable component with the live store: every field of the Store built by NewReadOnly is constructed there from the snapshot readers; only log, db, metrics, config and the version number come from the receiver", 8)
 	c.ruleReadOnlyIsolated("R6")
+	c.ruleRollbackPrunesAllPrefixes("R7")
 }
 
 // ruleReadOnlyIsolated (C10.R6 / C16.R3): the Store returned by NewReadOnly must not alias the live store's state store,
@@ -747,4 +749,71 @@ func c16(c *ctx) {
 	}
 	r.Rule("R3", "ALIAS", "proofs for a committed height come from that height's tree: the read-only view builds its own commitment tree from the snapshot at the query version and borrows no mutable component of the live store (whose tree holds the block under construction)", 8)
 	c.ruleReadOnlyIsolated("R3")
+}
+
+// ruleRollbackPrunesAllPrefixes (C08.R6 / C09.R6 / C10.R7): Rollback must remove the abandoned versions of EVERYTHING the
+// live store writes under a version: the set of key prefixes handed to pruneVersionWindow covers every prefix a writable
+// Txn is opened on (the latest-state prefix excepted: it holds one un-versioned copy and is patched key by key). A prefix
+// left out keeps its newer versions: the commitment tree under it then resolves to the abandoned tip and every later root
+// depends on history, not on state.
+func (c *ctx) ruleRollbackPrunesAllPrefixes(R string) {
+	r := c.r
+	r.Rule(R, "AGREE", "rollback prunes what commit writes: every key prefix on which the store opens a writable versioned Txn (latest-state excepted, patched separately) is handed to pruneVersionWindow by Store.Rollback", 3)
+	rollback := c.fn("store.(*Store).Rollback")
+	prune := c.fn("store.(*Store).pruneVersionWindow")
+	newTxn := c.fn("store.NewTxn")
+	if rollback == nil || prune == nil || newTxn == nil {
+		return
+	}
+	written := map[string]string{}
+	for _, f := range c.p.Funcs {
+		if pkgShort(f) != "store" || isTestFile(c.p, f.Pos()) {
+			continue
+		}
+		for _, cs := range callsIn(f, false, newTxn) {
+			if isNilConst(argOf(cs, 1)) {
+				continue // read-only
+			}
+			if pth := c.p.path(argOf(cs, 2)); strings.HasPrefix(pth, "store.") {
+				if _, seen := written[pth]; !seen {
+					written[pth] = c.p.Pos(cs.Pos())
+				}
+			}
+		}
+	}
+	pruned := map[string]bool{}
+	for _, cs := range callsIn(rollback, false, prune) {
+		arg := argOf(cs, 2)
+		if u, ok := arg.(*ssa.UnOp); ok {
+			if ia, ok := u.X.(*ssa.IndexAddr); ok {
+				for _, e := range sliceLitElems(ia.X) {
+					pruned[c.p.path(e)] = true
+				}
+				continue
+			}
+		}
+		pruned[c.p.path(arg)] = true
+	}
+	var ws []string
+	for w := range written {
+		ws = append(ws, w)
+	}
+	sort.Strings(ws)
+	for _, w := range ws {
+		if w == "store.latestStatePrefix" {
+			uses := false
+			instrs(rollback, func(in ssa.Instruction) {
+				for _, op := range in.Operands(nil) {
+					if g, ok := (*op).(*ssa.Global); ok && g.Name() == "latestStatePrefix" {
+						uses = true
+					}
+				}
+			})
+			r.Check(uses, R+"/Rollback/patches/"+w, c.p.Pos(rollback.Pos()), "latest state is patched from the target view", "Rollback no longer touches the latest-state prefix: the current state would keep the abandoned heights' values")
+			continue
+		}
+		r.Check(pruned[w], R+"/Rollback/prunes/"+w, written[w], "written by the live store and pruned by Rollback",
+			"the live store writes versioned data under "+w+" ("+written[w]+") but Store.Rollback does not hand that prefix to pruneVersionWindow: versions written by the abandoned heights survive the rollback (for the commitment tree: the root after a rollback depends on the abandoned history)")
+	}
+	r.Check(len(ws) >= 3, R+"/Rollback/written-prefixes", c.p.Pos(rollback.Pos()), fmt.Sprintf("%d written prefixes found: %s", len(ws), strings.Join(ws, ", ")), fmt.Sprintf("only %d written prefixes found (rule needs re-reading)", len(ws)))
 }
